@@ -1190,6 +1190,115 @@ func runWraparound(run *vx.Run) {
 	run.Set("modification_counter_wraparound", fmt.Sprintf("an iterator parked across exactly %v structural modifications (one of them next to it), forward and reverse", totals))
 }
 
+// runScale: one tree grown to 70 000 keys (ascending, descending and a fixed scrambled order) and taken
+// apart again, observed at the sizes where a count or index narrower than int would wrap. C01: Len,
+// First/Last, complete forward and reverse iteration, Get of the keys around the check size. C03: the
+// structural invariant (incl. the depth bound and the comparison bound) at the same points.
+func runScale(run *vx.Run, prop string) {
+	const n = 70000
+	checkAt := map[int]bool{255: true, 256: true, 257: true, 32767: true, 32768: true, 65535: true, 65536: true, 65537: true, n: true, 0: true}
+	orders := map[string]func(i int) int{
+		"ascending":  func(i int) int { return i + 1 },
+		"descending": func(i int) int { return n - i },
+		"scrambled":  func(i int) int { return (i*30011)%n + 1 }, // 30011 is coprime to n: a permutation
+	}
+	var cases int64
+	for _, name := range []string{"ascending", "descending", "scrambled"} {
+		f := orders[name]
+		for _, set := range []bool{false, true} {
+			if set && name != "scrambled" {
+				continue
+			}
+			cfg := tr.Config{Ctor: "cmp", Order: "nat", U: n + 1, Set: set}
+			if name == "descending" {
+				cfg.Ctor = "less"
+			}
+			t := tr.New(cfg)
+			t.Budget = 1 << 40
+			observe := func(what string) *seqx.Viol {
+				cases++
+				if prop == "C03" {
+					m := len(t.Model)
+					v, _ := t.CheckC03([]int{1, m / 2, m, m + 1}, true)
+					return v
+				}
+				if got := t.Len(); got != len(t.Model) {
+					return &seqx.Viol{Sig: "c01/Len", Detail: fmt.Sprintf("Len()=%d, model has %d keys", got, len(t.Model))}
+				}
+				sorted := t.Sorted()
+				for _, rev := range []bool{false, true} {
+					sp := tr.IterSpec{Iterate: true}
+					if rev {
+						sp = tr.IterSpec{Reverse: true, LoKind: tr.Unb, HiKind: tr.Unb}
+					}
+					var bad *seqx.Viol
+					if g := t.Guard(sp.String(), func() {
+						it := t.NewIter(sp)
+						for i := 0; i <= len(sorted); i++ {
+							k, val, ok := it.Next()
+							j := i
+							if rev {
+								j = len(sorted) - 1 - i
+							}
+							if ok != (i < len(sorted)) || (ok && (k != sorted[j][1] || (!set && val != sorted[j][2]))) {
+								bad = &seqx.Viol{Sig: "c01/" + map[bool]string{false: "Iterate", true: "RangeReverse"}[rev], Detail: fmt.Sprintf("item #%d of %s over %d keys is (%d,%d,%v)", i, sp, len(sorted), k, val, ok)}
+								return
+							}
+						}
+					}); g != nil {
+						return g
+					}
+					if bad != nil {
+						return bad
+					}
+				}
+				if len(sorted) > 0 {
+					fk, fv := t.First()
+					lk, lv := t.Last()
+					if fk != sorted[0][1] || lk != sorted[len(sorted)-1][1] || (!set && (fv != sorted[0][2] || lv != sorted[len(sorted)-1][2])) {
+						return &seqx.Viol{Sig: "c01/FirstLast", Detail: fmt.Sprintf("First/Last = (%d,%d)/(%d,%d) with %d keys", fk, fv, lk, lv, len(sorted))}
+					}
+				}
+				for _, k := range []int{1, len(sorted) / 2, len(sorted), n, n + 1} {
+					e, present := t.Model[k]
+					if t.Contains(k) != present || (!set && present && t.Get(k) != e[1]) {
+						return &seqx.Viol{Sig: "c01/Get", Detail: fmt.Sprintf("Contains/Get(%d) disagree with the model (present %v) at %d keys", k, present, len(sorted))}
+					}
+				}
+				return nil
+			}
+			report := func(v *seqx.Viol, what string) bool {
+				if v == nil {
+					return false
+				}
+				run.Violate(vx.Violation{Signature: "scale/" + v.Sig, Detail: fmt.Sprintf("[fan-out %d, %s, keys put in %s order, %s] %s", fanout, cfg, name, what, v.Detail), Replay: map[string]any{"mode": "scale", "fanout": fanout}})
+				return true
+			}
+			for i := 0; i < n; i++ {
+				t.Put(f(i))
+				if checkAt[len(t.Model)] {
+					if report(observe(""), fmt.Sprintf("grown to %d keys", len(t.Model))) {
+						run.AddCounts(cases, cases, cases)
+						return
+					}
+				}
+			}
+			// taken apart in another order than it was built
+			for i := 0; i < n; i++ {
+				t.Delete(f((i + n/3) % n))
+				if checkAt[len(t.Model)] {
+					if report(observe(""), fmt.Sprintf("shrunk to %d keys", len(t.Model))) {
+						run.AddCounts(cases, cases, cases)
+						return
+					}
+				}
+			}
+		}
+	}
+	run.AddCounts(cases, 4*2*n, 4*2*n)
+	run.Set("scale", "trees grown to 70 000 keys in ascending, descending and scrambled order (Map and Set, less- and cmp-constructed) and taken apart in another order, observed at 255-257, 32 767/8, 65 535-65 537 and 70 000 keys")
+}
+
 func main() {
 	prop := os.Args[1]
 	os.Args = append(os.Args[:1], os.Args[2:]...)
@@ -1215,6 +1324,7 @@ func main() {
 				d = 3
 			}
 			runSeeded(run, prop, d)
+			runScale(run, prop)
 		} else {
 			runClosure(run, prop)
 			runSeeded(run, prop, 2) // deep trees (height 4-6) at the scaled fan-out
@@ -1227,6 +1337,7 @@ func main() {
 				d = 3
 			}
 			runSeeded(run, prop, d)
+			runScale(run, prop)
 		} else {
 			runClosure(run, prop)
 			runSeeded(run, prop, 2)
@@ -1302,6 +1413,9 @@ func doReplay(run *vx.Run, prop string) {
 		_, v = s.replay(rp.Ops)
 	case "wraparound":
 		runWraparound(run)
+		run.Finish()
+	case "scale":
+		runScale(run, prop)
 		run.Finish()
 	case "product-seeded":
 		// the scenario family is deterministic: re-run it (the recorded history is in 'readable')
